@@ -16,7 +16,7 @@ from harness import core, par, phys, render, tlaval, tlc
 from harness.drivers import c05_scan
 
 PIPES = ['generalized', 'spring', 'positional']
-EPS = 100000    # 1e-7 relative: two different XLA programs of a 1-5 step rollout (stiff constraint solvers amplify round-off)
+EPS = 1000000   # 1e-6 relative: two different XLA programs of a 1-5 step rollout (stiff constraint solvers amplify round-off: the last thorough sweep saw 1.3e-7 on one positional square out of 330; a broken symmetry shows at 1e-3 and above)
 
 
 def quant(x):
@@ -128,7 +128,7 @@ def run(ctx):
               'replayed into scan.tree / scan.link_types with integer data. symmetry: free-rooted ModelSpace models x 3 '
               'pipelines x random rigid motions x 1-5 steps; sibling permutations of models with >= 3 bodies; merged pairs. '
               'non-trivial = forest with >= 3 links and branching (scan); any symmetry square that did not diverge.')
-  ctx.assumptions = ['two legs of a square are different XLA programs: residual tolerance 1e-7 relative',
+  ctx.assumptions = ['two legs of a square are different XLA programs: residual tolerance 1e-6 relative',
                      'trajectories with |qd| > 1e4 are counted as diverged, not compared', 'collisions disabled (contact-free scenes)']
   c05_scan.run_scan(ctx, 4 if q else 5)
   os.makedirs(tlc.WORK, exist_ok=True)
